@@ -230,6 +230,8 @@ TRetPoll ==
     /\ viol' = viol
          \cup Flag(R.res = 2 /\ ~(consulted /\ ~lastAns), "pending_without_consulting_callback")
          \cup Flag(R.res = 3 /\ ~closed, "closed_reported_but_not_closed")
+         \* Closed is an absorbing answer: the infinite iterator has ended, it does not come back
+         \cup Flag(lastPoll = 3 /\ R.res # 3, "iterator_yielded_after_it_ended")
     /\ Keep(<<watched, flag, queue, begun, yielded, gotIds, delivered, bytes, closed, consulted,
               lastAns, frames, poisoned>>)
 
@@ -334,7 +336,8 @@ C09set == {"consumer_blocked_with_unreported_signal", "delivery_woke_the_reader_
 C10set == {"record_not_a_faithful_copy", "yield_of_unwatched_signal", "more_yields_than_deliveries",
            "record_of_no_delivery", "record_yielded_twice", "records_out_of_order", "library_call_panicked"}
 C11set == {"pending_without_consulting_callback", "closed_not_sticky", "closed_before_close",
-           "closed_reported_but_not_closed", "consumer_blocked_after_close", "library_call_panicked"}
+           "closed_reported_but_not_closed", "consumer_blocked_after_close", "library_call_panicked",
+           "iterator_yielded_after_it_ended"}
 C12set == {"ids_mutex_poisoned", "panic", "aborted", "registration_leaked_after_drop"}
 
 V_C03 == viol \cap C03set = {}
